@@ -186,7 +186,7 @@ CHECKS = {
         "design_ref": "DESIGN.md §5 C14",
     },
     "C15": {
-        "level": "model_checking", "variants": ["main", "sched"], "shards": 15, "deadline_quick": 90, "deadline_thorough": 900,
+        "level": "model_checking", "variants": ["main", "sched"], "shards": 16, "deadline_quick": 90, "deadline_thorough": 900,
         "engine": "E-SEQ + E-SCHED",
         "technique": "model checking of the implementation: (a) explicit-state BFS by replay over the real rpcQueue vs. a reference model, (b) controlled-scheduler exploration (preemption-bounded, then unbounded with a state cache) of every interleaving of concurrent pushers, poppers, cancellers and closers with a linearizability oracle; plus a free-running -race pass of the same operations for unsynchronised accesses the cooperative scheduler cannot see (sampling, alarms only)",
         "rule": "state = canonical dump of the real queue + pending calls + cancelled contexts; a transition is one queue operation run to quiescence in a "
